@@ -1215,7 +1215,11 @@ class DomainMapping(CanBehaveLikeAVariable[T], ABC):
         self._eval_parent_ = parent
 
         if self._id_ in sources:
-            yield OperationResult(sources, self._is_false_, self)
+            # The value is known already, its truth value depends on where it is used this time (an expression can be
+            # a condition in one place and an operand in another).
+            yield self._build_operation_result_and_update_truth_value_(
+                OperationResult(sources, False, self), sources[self._id_]
+            )
             return
 
         yield from (
